@@ -114,6 +114,10 @@ def plan(tier, seed):
     # (memory layouts of the mesh arrays are NOT an input dimension here: ThermalProperties only ever receives a Mesh / IterMesh
     # object, whose arrays are C-contiguous double / int64 by construction; a first version of this check fed strided and
     # float-typed arrays through the duck-typed mesh and "found" wrong sums that no public route can produce)
+    # temperatures handed over in other forms (this IS a public route: run_thermal_properties(temperatures=...))
+    for tl in ("every-other", "table-column", "list"):
+        for fs_, st_, lg, pj in itertools.product(("typical", "typical-imag"), STAT, LANG, PROJ):
+            cases.append(dict(zip(keys, (fs_, "mixed", None, "as-is", None, pj, st_, lg)), tier=tier, tlayout=tl))
     for lay in ():
         for fs_, wt, st_, lg, pj in itertools.product(("typical", "typical-imag"), ("mixed", "ones"), STAT, LANG, PROJ):
             cases.append(dict(zip(keys, (fs_, wt, None, "as-is", None, pj, st_, lg)), tier=tier, layout=lay))
@@ -207,7 +211,22 @@ def run_case(case, seed):
     temps = tgrid(case.get("tier", "quick"))
     try:
         tp = ThermalProperties(mesh, cutoff_frequency=cut, pretend_real=pretend, band_indices=bi, is_projection=case["proj"], classical=classical)
-        tp.temperatures = temps
+        tl = case.get("tlayout")
+        if tl == "every-other":
+            t2 = np.repeat(temps, 2)
+            t2[1::2] = 12345.0
+            tp.temperatures = t2[::2]
+        elif tl == "table-column":
+            tab = np.zeros((len(temps), 3))
+            tab[:, 0] = temps
+            tab[:, 1] = 777.0
+            tp.temperatures = tab[:, 0]
+        elif tl == "list":
+            tp.temperatures = temps.tolist()
+        else:
+            tp.temperatures = temps
+        if tl:
+            tag += "/temperatures-as-" + tl
         tp.run(lang=case["lang"])
         T, F, S, C = [np.array(a) for a in tp.thermal_properties]
         if case["proj"] and F.ndim == 2:
